@@ -2,15 +2,19 @@
 
 Spec: spec/ServerShutdown (accept loop, per-connection recv loop, handlers direct or through the pool's
 queue/dispatcher, Release handshake, Shutdown poller with CloseIdles and the close notification).
-MC: 2 connections, 3-4 requests, no pool / pool 1 / pool 2: ReadImpliesAnswered, NoLateWrite, Notified,
-ReturnsWhenDrained, and under fairness ReadGetsAnswered / ShutdownDrains; the variant that releases the pool as
+MC: 2 connections, 3-4 requests, two calls of Shutdown (overlapping or one after the other), no pool / pool 1 / pool 2:
+ReadImpliesAnswered, NoLateWrite, Notified, ReturnsWhenDrained (every call), and under fairness ReadGetsAnswered / ShutdownDrains; the variant that releases the pool as
 soon as the accept loop exits must violate ReadGetsAnswered (non-vacuity).
 Binding B1: a real transport.TarsServer (recording protocol with scripted handler durations, real
 protocol.TarsRequest framing) is driven by scripted clients and shut down at varied moments; hooks report
 read / invoked / written / connection closed / accept-loop exit / pool released; the clients report responses,
 the close notification and the end of the stream.  TLC validates every run against the spec (any release
 order is accepted; what is judged is that everything read is answered before the connection closes, that the
-client was notified, and that Shutdown returned only when everything had drained or its context expired).
+client was notified, and that every call of Shutdown returned only when everything had drained or its own context expired).
+Run kinds: base (1-2 connections, 0-6 requests, one call), twice (1-3 connections, a 1.2-2.7 s handler in flight, two or
+three calls of Shutdown: overlapping / after a call whose short context expired / after a call that drained), mix (3-6
+connections in different states at the moment of shutdown: silent from the start, silent for > 2 s after early traffic,
+a 0.7-2.7 s handler in flight, recent short requests; one call or several).
 """
 import json
 import os
@@ -34,45 +38,128 @@ def split(path):
     return traces
 
 
+CTX_MS = 6000      # the long Shutdown context
+
+
+def oneway(t):
+    return {e["r"] for e in t if e["e"] == "ReqSent" and e.get("ow")}
+
+
+def calls(t):
+    return sum(1 for e in t if e["e"] == "ShutdownStart")
+
+
+def classify(n, q, t, f):
+    """Signature and description of a rejected run (f: the failure reported by the trace validation)."""
+    ev = f["event"]
+    read = {e["r"] for e in t if e["e"] == "Read"} - oneway(t)
+    written = {e["r"] for e in t if e["e"] == "Written"}
+    if ev.get("e") in ("End", "ShutdownEnd") and read - written:
+        sig = "C12:read-not-answered:%s" % ("pool" if n > 0 else "nopool")
+        what = ("requests %s were read but never answered (pool %d, queue %d); Shutdown %s"
+                % (sorted(read - written), n, q, [e for e in t if e["e"] == "ShutdownEnd"]))
+    elif ev.get("e") == "ShutdownEnd" and not ev["expired"]:
+        # the call returned with a live context although the model cannot have every connection closed at this point
+        before = t[:f["offset"]]
+        later = any(e["e"] == "ShutdownStart" and e["k"] != ev["k"] for e in
+                    before[:[i for i, e in enumerate(before) if e["e"] == "ShutdownStart" and e["k"] == ev["k"]][0]])
+        pending = sorted(({e["r"] for e in before if e["e"] == "Read"} - oneway(t)) - {e["r"] for e in before if e["e"] == "Written"})
+        sig = "C12:returned-before-drained:%s:%s" % ("later-call" if later else "first-call", "pool" if n > 0 else "nopool")
+        what = ("call %d of Shutdown returned after %d ms with %d ms of its context left while connections had not drained "
+                "(%d connections; requests read and not yet answered at that moment: %s)"
+                % (ev["k"], ev["ms"], ev["ctx"] - ev["ms"], t[0]["conns"], pending))
+    else:
+        sig = "C12:trace-rejected:%s:%s%s" % ("pool" if n > 0 else "nopool", ev.get("e"),
+                                              ":" + f["invariant"][0] if f["invariant"] else "")
+        what = "run is not a behaviour of ServerShutdown at event %s" % json.dumps(ev)
+    return sig, what
+
+
+def early_return(t, want):
+    """An accepted run in which a call k (want(t, k)) of Shutdown returned with a live context after a response was written during the call:
+    the same run with that return moved to right after the call began (None if the run has no such call)."""
+    for i, e in enumerate(t):
+        if e["e"] == "ShutdownStart" and want(t, e["k"]):
+            j = [x for x in range(i, len(t)) if t[x]["e"] == "ShutdownEnd" and t[x]["k"] == e["k"]]
+            if not j or t[j[0]]["expired"]:
+                continue
+            # a request (not one-way) read before the call began and answered only during the call
+            pend = ({x["r"] for x in t[:i] if x["e"] == "Read"} - oneway(t)) - {x["r"] for x in t[:i] if x["e"] == "Written"}
+            if not any(x["e"] == "Written" and x["r"] in pend for x in t[i:j[0]]):
+                continue
+            m = list(t)
+            end = m.pop(j[0])
+            m.insert(i + 1, end)
+            return m
+    return None
+
+
 def run(ctx):
     ctx.level = "model_checking"
     ctx.assumptions = [
         "the pool is modelled by queue + dispatcher holding one job + running set + Release handshake (GPool.tla checks that design separately)",
-        "handler durations (<= 400 ms, one in four runs has a single 2.7 s handler) are below the Shutdown context (6 s): an expired context means requests were stranded, not slow",
-        "server runs with the framework defaults ReadTimeout = 0, AcceptTimeout = 500 ms; clients send nothing after Shutdown starts",
+        "handler durations (<= 400 ms; one in four base runs, every twice/mix run has one handler of 0.7-2.7 s) are below the long Shutdown context (6 s): "
+        "an expired long context means requests were stranded, not slow; short contexts (300-900 ms) of additional calls are meant to expire",
+        "server runs with the framework defaults ReadTimeout = 0, AcceptTimeout = 500 ms; one run in three sends one more request 200-300 ms after Shutdown began "
+        "(before the poller's first round sends the close message), otherwise clients send nothing after Shutdown starts",
+        "a client that saw the end of its stream without the notification is reported when a re-run of the same scenario (three are made) shows it again "
+        "(in the code the order of the poller's first round and the recv loop's own exit is a matter of a 100 ms margin: on an overloaded machine it can flip)",
     ]
-    mc = {}
-    with ThreadPoolExecutor(max_workers=4) as ex:
-        futs = {c: ex.submit(tlc.run, ctx, SPEC, "MC_ServerShutdown", cfg="MC_%s.cfg" % c, workers=4, timeout=900, name="mc-" + c)
-                for c in ("nopool", "pool_late", "pool2_late", "pool_early")}
-        for c, f in futs.items():
-            r = f.result()
-            if c == "pool_early":
-                if "ReadGetsAnswered" not in r.out or "violated" not in r.out:
-                    raise Inconclusive("the early-release model does not violate ReadGetsAnswered (vacuity guard)")
-                continue
-            tlc.require_clean(r, "MC_ServerShutdown/" + c)
-            mc[c] = {"distinct": r.distinct, "generated": r.generated}
     exe = gobuild.build(ctx, "vdrive")
-    configs = [(0, 3), (1, 3), (2, 3), (2, 1), (1, 1), (0, 3), (2, 3), (1, 3)]
+    ctx.log("driver built")
+    # the model is checked while the real code is driven (the driver sleeps most of the time)
+    mcex = ThreadPoolExecutor(max_workers=4)
+    # two calls of Shutdown in every configuration (thorough); quick: two calls with pool 2 and, with 3 requests, without a pool; one call in the others
+    one_call = ctx.pick(("nopool", "pool_late", "pool_early"), ())
+    mccfg = {c: open(os.path.join(VERIF, "spec", SPEC, "MC_%s.cfg" % c)).read().replace("Calls <- K2", "Calls <- K1" if c in one_call else "Calls <- K2")
+             for c in ("nopool", "pool_late", "pool2_late", "pool_early")}
+    if ctx.quick:
+        mccfg["nopool_twice"] = (open(os.path.join(VERIF, "spec", SPEC, "MC_nopool.cfg")).read()
+                                 .replace("Reqs <- R4  ConnOf <- CO4", "Reqs <- R3  ConnOf <- CO3"))
+        assert "R3" in mccfg["nopool_twice"] and "K2" in mccfg["nopool_twice"]
+    mcfuts = {c: mcex.submit(tlc.run, ctx, SPEC, "MC_ServerShutdown", cfg="MCrun_%s.cfg" % c, extra_files={"MCrun_%s.cfg" % c: mccfg[c]},
+                             workers=ctx.pick(2, 4), timeout=900, name="mc-" + c)
+              for c in mccfg}
     per = ctx.pick(5, 60)
+    # (pool, queue, kind, runs, extra flags)
+    configs = [(n, q, "base", per, (["-abort"] if i >= 5 else []))
+               for i, (n, q) in enumerate([(0, 3), (1, 3), (2, 3), (2, 1), (1, 1), (0, 3), (2, 3), (1, 3)])]
+    configs += [(n, q, "twice", ctx.pick(3, 24), []) for n, q in [(0, 3), (2, 3), (1, 1)]]
+    configs += [(n, q, "mix", ctx.pick(4, 30), []) for n, q in [(0, 3), (2, 3), (1, 3)] + ctx.pick([], [(0, 3), (2, 1)])]
 
     def drive(i):
-        n, q = configs[i % len(configs)]
+        n, q, kind, runs, extra = configs[i]
         out = os.path.join(ctx.work, "sd%d.ndjson" % i)
-        rc, so, se = sh([exe, "shutdown-trace", "-seed", str(ctx.seed * 1000 + i), "-n", str(per), "-pool", str(n), "-q", str(q),
-                         "-ctx", "6000", "-out", out] + (["-abort"] if i % len(configs) >= 5 else []), timeout=3400)
-        return (n, q), out, [int(x) for x in so.split()[-7:]]
+        rc, so, se = sh([exe, "shutdown-trace", "-seed", str(ctx.seed * 1000 + i), "-n", str(runs), "-pool", str(n), "-q", str(q),
+                         "-ctx", str(CTX_MS), "-kind", kind, "-out", out] + extra, timeout=3400)
+        if rc != 0:
+            raise Inconclusive("vdrive shutdown-trace failed (%s): %s" % (kind, se[-400:]))
+        return (n, q), out, [int(x) for x in so.split()[-7:]], kind
 
     with ThreadPoolExecutor(max_workers=len(configs)) as ex:
         outs = list(ex.map(drive, range(len(configs))))
+    ctx.log("real code driven: %d processes" % len(configs))
+    mc = {}
+    for c, f in mcfuts.items():
+        r = f.result()
+        if c == "pool_early":
+            if "ReadGetsAnswered" not in r.out or "violated" not in r.out:
+                raise Inconclusive("the early-release model does not violate ReadGetsAnswered (vacuity guard)")
+            continue
+        tlc.require_clean(r, "MC_ServerShutdown/" + c)
+        mc[c] = {"distinct": r.distinct, "generated": r.generated, "calls_of_Shutdown": 1 if c in one_call else 2}
+    mcex.shutdown()
+    ctx.log("model checked")
     hits = [sum(o[2][k] for o in outs) for k in range(7)]
     if min(hits[1:]) == 0:
         raise Inconclusive("hook self-test: a tcp server hook never fired: %s" % hits)
     tmpl = open(os.path.join(VERIF, "spec", SPEC, "Trace.cfg.tmpl")).read()
     groups = {}
-    for nq, out, _ in outs:
-        groups.setdefault(nq, []).extend(split(out))
+    kinds = {}
+    for nq, out, _, kind in outs:
+        ts = split(out)
+        groups.setdefault(nq, []).extend(ts)
+        kinds[kind] = kinds.get(kind, 0) + len(ts)
 
     def val(item):
         (n, q), traces = item
@@ -81,44 +168,80 @@ def run(ctx):
 
     states = trans = ntr = 0
     expired = 0
+    pending_timed = []
     with ThreadPoolExecutor(max_workers=6) as ex:
         for (n, q), traces, (acc, fails, st) in ex.map(val, list(groups.items())):
             states += st["states"]
             trans += st["transitions"]
             ntr += len(traces)
-            expired += sum(1 for t in traces for e in t if e["e"] == "ShutdownEnd" and e["expired"])
+            expired += sum(1 for t in traces for e in t if e["e"] == "ShutdownEnd" and e["expired"] and e["ctx"] >= CTX_MS)
             for f in fails:
                 t = traces[f["index"]]
-                ev = f["event"]
-                read = {e["r"] for e in t if e["e"] == "Read"}
-                written = {e["r"] for e in t if e["e"] == "Written"}
-                if ev.get("e") in ("End", "ShutdownEnd") and read - written:
-                    sig = "C12:read-not-answered:%s" % ("pool" if n > 0 else "nopool")
-                    what = ("requests %s were read but never answered (pool %d, queue %d); Shutdown %s"
-                            % (sorted(read - written), n, q, [e for e in t if e["e"] == "ShutdownEnd"]))
+                sig, what = classify(n, q, t, f)
+                if ":PeerEOF" in sig or "NotifiedT" in sig or ":ReqSent" in sig:
+                    pending_timed.append((sig, what, n, q, t, f))
                 else:
-                    sig = "C12:trace-rejected:%s:%s%s" % ("pool" if n > 0 else "nopool", ev.get("e"),
-                                                          ":" + f["invariant"][0] if f["invariant"] else "")
-                    what = "run is not a behaviour of ServerShutdown at event %s" % json.dumps(ev)
-                ctx.violate(sig, what, {"n": n, "q": q, "trace": t, "offset": f["offset"]})
+                    ctx.violate(sig, what, {"n": n, "q": q, "trace": t, "offset": f["offset"]})
+    # Whether a client sees the notification before the end of its stream depends, in the code as written, on the poller's first
+    # round (500 ms after Shutdown began) coming before the recv loop's own way out (100 ms read deadline + 500 ms tick): on an
+    # overloaded machine the order can flip; so can the order of a request sent 200-300 ms after Shutdown began and that first round.
+    # Such a rejection is reported when one of three re-runs of the same scenario shows it again (up to three scenarios per signature
+    # are tried: a defect that depends on the iteration order of the connection table shows in every other run only).
+    unreproduced = []
+    confirmed = set()
+    tried = {}
+    for sig, what, n, q, t, f in pending_timed:
+        if sig in confirmed or tried.get(sig, 0) >= 3:
+            continue
+        tried[sig] = tried.get(sig, 0) + 1
+        c0 = t[0]
+
+        def again(i, c0=c0, n=n, q=q, sig=sig):
+            out = os.path.join(ctx.work, "rerun-%d-%d-%d.ndjson" % (c0["dseed"], c0["sc"], i))
+            rc, so, se = sh([exe, "shutdown-trace", "-seed", str(c0["dseed"]), "-n", str(c0["sc"] + 1), "-only", str(c0["sc"]), "-pool", str(n),
+                             "-q", str(q), "-ctx", str(CTX_MS), "-kind", c0["kind"], "-out", out] + (["-abort"] if c0["abort"] else []), timeout=600)
+            ts = split(out) if rc == 0 else []
+            if len(ts) != 1:
+                raise Inconclusive("re-run of scenario %s/%d failed: %s" % (c0["kind"], c0["sc"], se[-300:]))
+            acc, fl, _ = tracecheck.validate(ctx, SPEC, "Trace_ServerShutdown", tmpl.replace("@N@", str(n)).replace("@Q@", str(q)), ts,
+                                             name="rerun-%d" % i, reset={"e": "End"})
+            return bool(fl) and classify(n, q, ts[0], fl[0])[0] == sig
+
+        with ThreadPoolExecutor(max_workers=3) as ex:
+            rep = sum(1 for ok in ex.map(again, range(3)) if ok)
+        ctx.log("order-dependent rejection %s (scenario %s/%d): seen again in %d of 3 re-runs of the scenario" % (sig, c0["kind"], c0["sc"], rep))
+        if rep >= 1:
+            confirmed.add(sig)
+            ctx.violate(sig, what + " (seen again in %d of 3 re-runs of the same scenario)" % rep, {"n": n, "q": q, "trace": t, "offset": f["offset"]})
+        else:
+            unreproduced.append({"signature": sig, "scenario": {k: c0[k] for k in ("kind", "dseed", "sc", "n", "q", "conns")}, "reproduced": 0, "of": 3,
+                                 "event": f["event"], "shutdown": [e for e in t if e["e"] == "ShutdownEnd"]})
+            ctx.notes.append("%s in scenario %s/%d (pool %d) was not seen again in 3 re-runs: not reported" % (sig, c0["kind"], c0["sc"], n))
+    ctx.log("traces validated")
     # the Shutdown context (6 s) is longer than every handler (<= 2.7 s) plus the close ticks: a run whose context expired although
     # everything read was answered did not "return once all connections have drained" (one such run may be a loaded machine)
     late = [t for ts in groups.values() for t in ts
-            if any(e["e"] == "ShutdownEnd" and e["expired"] for e in t)
-            and {e["r"] for e in t if e["e"] == "Read"} <= ({e["r"] for e in t if e["e"] == "Written"} | {3, 6})]
+            if any(e["e"] == "ShutdownEnd" and e["expired"] and e["ctx"] >= CTX_MS for e in t)
+            and {e["r"] for e in t if e["e"] == "Read"} <= ({e["r"] for e in t if e["e"] == "Written"} | oneway(t))]
     if len(late) >= 2:
         t = late[0]
-        kind = "one-way-request" if any(e["e"] == "Read" and e["r"] in (3, 6) for e in t) else "all-answered"
+        kind = "one-way-request" if any(e["e"] == "Read" and e["r"] in oneway(t) for e in t) else "all-answered"
         ctx.violate("C12:shutdown-ran-to-its-deadline:%s" % kind,
                     "in %d runs every request read was handled and answered, yet Shutdown only returned when its %d ms context expired "
-                    "(connections never drained): %s" % (len(late), 6000, [e for e in t if e["e"] == "ShutdownEnd"]),
+                    "(connections never drained): %s" % (len(late), CTX_MS, [e for e in t if e["e"] == "ShutdownEnd"]),
+                    {"n": t[0]["n"], "q": t[0]["q"], "trace": t})
+    # "... or when its context expires, whichever is first": a call must not outlive its context (2 s of margin for a loaded machine)
+    overdue = [(t, e) for ts in groups.values() for t in ts for e in t if e["e"] == "ShutdownEnd" and e["ms"] > e["ctx"] + 2000]
+    if len(overdue) >= 2:
+        t, e = overdue[0]
+        ctx.violate("C12:shutdown-outlived-its-context", "in %d calls Shutdown returned long after its context had expired: %s" % (len(overdue), e),
                     {"n": t[0]["n"], "q": t[0]["q"], "trace": t})
     # binding self-test on an accepted trace
     base = None
     for traces in groups.values():
         for t in traces:
             ws = [e for e in t if e["e"] == "Written"]
-            if ws and any(e["e"] == "ConnClosed" and e["c"] == 2 - ws[-1]["r"] % 2 for e in t) and not any(e["e"] == "ClientAbort" for e in t):
+            if ws and any(e["e"] == "ConnClosed" and e["c"] == ws[-1]["r"] // 10 for e in t) and not any(e["e"] == "ClientAbort" for e in t):
                 base = t
                 break
         if base:
@@ -128,9 +251,6 @@ def run(ctx):
     cfg0 = base[0]
     wi = [i for i, e in enumerate(base) if e["e"] == "Written"][-1]
     m1 = [e for i, e in enumerate(base) if i != wi and not (e["e"] == "RespRecv" and e["r"] == base[wi]["r"])]   # answer never written
-    ci = [i for i, e in enumerate(base) if e["e"] == "ConnClosed"][0]
-    m2 = [e for e in base if not (e["e"] == "CloseMsgRecv")]
-    m2 = [e for e in m2]
     selftest = {}
     t_cfg = tmpl.replace("@N@", str(cfg0["n"])).replace("@Q@", str(cfg0["q"]))
     acc, fails, _ = tracecheck.validate(ctx, SPEC, "Trace_ServerShutdown", t_cfg, [m1], name="selftest-unanswered", reset={"e": "End"})
@@ -140,23 +260,50 @@ def run(ctx):
     # connection closed before the last response was written
     m3 = list(base)
     w = m3.pop(wi)
-    ci = [i for i, e in enumerate(m3) if e["e"] == "ConnClosed" and e["c"] == (2 - w["r"] % 2)][0]
+    ci = [i for i, e in enumerate(m3) if e["e"] == "ConnClosed" and e["c"] == w["r"] // 10][0]
     m3.insert(ci + 1, w)
     acc, fails, _ = tracecheck.validate(ctx, SPEC, "Trace_ServerShutdown", t_cfg, [m3], name="selftest-latewrite", reset={"e": "End"})
     selftest["closed-before-written"] = "rejected" if fails else "ACCEPTED"
     if not fails:
         raise Inconclusive("binding self-test failed: close-before-write accepted")
+    # a call of Shutdown that returns with a live context while a request is still being handled: (a) a later call (second or third,
+    # overlapping or after an earlier call has returned), (b) the only call of a run with three or more connections in different states
     allt = [t for ts in groups.values() for t in ts]
+    for label, want in (("later-call-returns-at-once", lambda t, k: k > 1),
+                        ("returns-while-another-connection-is-busy", lambda t, k: k == 1 and t[0]["conns"] >= 3 and calls(t) == 1)):
+        m = None
+        for t in allt:
+            m = early_return(t, want)
+            if m:
+                break
+        if m is None:
+            raise Inconclusive("no run suitable for the self-test %s (vacuous corpus)" % label)
+        t_cfg = tmpl.replace("@N@", str(m[0]["n"])).replace("@Q@", str(m[0]["q"]))
+        acc, fails, _ = tracecheck.validate(ctx, SPEC, "Trace_ServerShutdown", t_cfg, [m], name="selftest-early", reset={"e": "End"})
+        selftest[label] = "rejected" if fails and fails[0]["event"].get("e") == "ShutdownEnd" else "ACCEPTED"
+        if selftest[label] != "rejected":
+            raise Inconclusive("binding self-test failed: %s accepted" % label)
+    waited = sum(1 for t in allt for e in t if e["e"] == "ShutdownEnd" and not e["expired"] and early_return(t, lambda t_, k, k0=e["k"]: k == k0))
     ctx.coverage = {
         "states": sum(v["distinct"] for v in mc.values()) + states,
         "transitions": sum(v["generated"] for v in mc.values()) + trans,
         "traces_validated_against_impl": ntr,
         "samples": [allt[0]],
         "evaluations": ntr, "distinct_nontrivial": len({json.dumps(t) for t in allt}),
-        "rule": "runs: pool 0/1/2, queue 1/3, 1-2 connections, 0-6 requests with handler durations 0-400 ms, Shutdown 0-300 ms after the "
-                "last request (in-flight, queued and idle mixes); distinct = distinct event traces",
+        "rule": "runs: pool 0/1/2, queue 1/3; base: 1-2 connections, 0-6 requests with handler durations 0-400 ms, Shutdown 0-300 ms after the "
+                "last request (in-flight, queued and idle mixes); one run in three of every kind: one more request 200-300 ms after Shutdown began; twice: 1-3 connections, a 1.2-2.7 s handler in flight, 2-3 calls of Shutdown "
+                "(overlapping, after an expired call, after a drained call; contexts 6 s or 300-900 ms); mix: 3-6 connections (silent, silent "
+                "after early traffic, 0.7-2.7 s handler in flight, recent requests), 1-3 calls; distinct = distinct event traces",
+        "runs_by_kind": kinds,
+        "runs_with_a_request_sent_during_Shutdown": sum(1 for t in allt if any(e["e"] == "ReqSent" for e in t[[i for i, e in enumerate(t) if e["e"] == "ShutdownStart"][0]:])),
+        "runs_with_3_or_more_connections": sum(1 for t in allt if t[0]["conns"] >= 3),
+        "runs_with_several_calls_of_Shutdown": sum(1 for t in allt if calls(t) > 1),
+        "calls_of_Shutdown": sum(calls(t) for t in allt),
+        "calls_that_returned_on_drain_after_waiting_for_a_handler": waited,
+        "calls_with_short_context_expired": sum(1 for t in allt for e in t if e["e"] == "ShutdownEnd" and e["expired"] and e["ctx"] < CTX_MS),
         "model_checking": mc, "early_release_model_violates_ReadGetsAnswered": True,
         "runs_with_expired_context": expired,
         "hook_hits": dict(zip(["scenarios", "handleConn", "invoked", "written", "recv.closed", "accept.exit", "accept.released"], hits)),
         "selftest_corrupted_traces": selftest, "exhaustive": False,
+        "timing_dependent_rejections_not_reproduced": unreproduced,
     }
